@@ -46,8 +46,8 @@ structure Contract (B : Nat) (m : Mode) (p : Nat) (x r : Rat) (flag : Option Rou
   exact_iff : flag = none ↔ r = x
   err : r ≠ x → ∃ e : Int, bpowQ B (e + p - 1) ≤ absQ x ∧ errOk B m e x r
   side : sideOk m x r
-  addOne : flag = some .addOne → x < r
-  subOne : flag = some .subOne → r < x
+  addOne : flag = some .AddOne → x < r
+  subOne : flag = some .SubOne → r < x
 
 /-- floor of `log_B x` for a positive rational given as `n / d` (`n, d > 0`, `B ≥ 2`) -/
 def ilogQ (B : Nat) (n d : Nat) : Int :=
@@ -64,8 +64,8 @@ def contractOk (B : Nat) (m : Mode) (p : Nat) (x r : Rat) (flag : Option Roundin
   decide (flag = none ↔ r = x) &&
   (r == x || (x != 0 && decide (bpowQ B (ulpExp B p x + p - 1) ≤ absQ x) && decide (errOk B m (ulpExp B p x) x r))) &&
   decide (sideOk m x r) &&
-  (flag != some .addOne || decide (x < r)) &&
-  (flag != some .subOne || decide (r < x))
+  (flag != some .AddOne || decide (x < r)) &&
+  (flag != some .SubOne || decide (r < x))
 
 /-! ### square root: `x = √v`, comparisons on squares (`r ≥ 0`, `v ≥ 0`) -/
 
@@ -102,8 +102,8 @@ structure ContractSqrt (B : Nat) (m : Mode) (p : Nat) (v r : Rat) (flag : Option
   exact_iff : flag = none ↔ r * r = v
   err : r * r ≠ v → ∃ e : Int, bpowQ B (e + p - 1) * bpowQ B (e + p - 1) ≤ v ∧ errSqrtOk B m e v r
   side : sideSqrtOk m v r
-  addOne : flag = some .addOne → v < r * r
-  subOne : flag = some .subOne → r * r < v
+  addOne : flag = some .AddOne → v < r * r
+  subOne : flag = some .SubOne → r * r < v
 
 /-- exponent of the ulp of `√v` at `p` digits -/
 def ulpExpSqrt (B p : Nat) (v : Rat) : Int := (ilogQ B v.num.natAbs v.den) / 2 - p + 1
@@ -115,8 +115,8 @@ def contractSqrtOk (B : Nat) (m : Mode) (p : Nat) (v r : Rat) (flag : Option Rou
     decide (bpowQ B (ulpExpSqrt B p v + p - 1) * bpowQ B (ulpExpSqrt B p v + p - 1) ≤ v) &&
     decide (errSqrtOk B m (ulpExpSqrt B p v) v r))) &&
   decide (sideSqrtOk m v r) &&
-  (flag != some .addOne || decide (v < r * r)) &&
-  (flag != some .subOne || decide (r * r < v))
+  (flag != some .AddOne || decide (v < r * r)) &&
+  (flag != some .SubOne || decide (r * r < v))
 
 /-! ### rounding a rational to an integer: the definition of each mode -/
 
